@@ -98,7 +98,7 @@ func (fr *Frame) call(ins ssa.Instruction, c *ssa.CallCommon, st *State) []Term 
 		for tf.parent != nil {
 			tf = tf.parent
 		}
-		e.callLog = append(e.callLog, &CallRec{Name: cx.name, Instr: ins, Results: rs, Args: cx.args, PC: st.pc, Block: tf.curBlock, Index: tf.curIdx, Depth: fr.depth})
+		e.callLog = append(e.callLog, &CallRec{Name: cx.name, Instr: ins, Results: rs, Args: cx.args, PC: st.pc, Block: tf.curBlock, Index: tf.curIdx, Depth: fr.depth, After: st.clone()})
 	}
 	return rs
 }
@@ -238,7 +238,7 @@ func (fr *Frame) havocCall(cx *callCtx, why string) []Term {
 	}
 	for c := range reach {
 		if _, ok := e.compSort[c]; ok {
-			cx.st.heap[c] = e.vc.fresh("hv$"+c, e.compSort[c])
+			e.havocComp(cx.st, c)
 		}
 	}
 	if len(reach) > 0 {
@@ -254,6 +254,21 @@ func lastSeg(s string) string {
 		return s[i+1:]
 	}
 	return s
+}
+
+// havocComp replaces component c by an arbitrary one, except that the cells of unexported
+// package-level variables of the package under verification keep their values (listed assumption:
+// callees outside the package do not modify them).
+func (e *Engine) havocComp(st *State, c string) {
+	vc := e.vc
+	old := e.get(st, c)
+	nw := vc.fresh("hv$"+c, e.compSort[c])
+	if strings.HasPrefix(e.compSort[c], "(Array Loc ") && len(e.privGlobals) > 0 {
+		vc.decl("fn:privroot", "(declare-fun privroot (Int) Bool)")
+		vc.assumeIf(st.pc, fmt.Sprintf("(forall ((l Loc)) (! (=> (privroot (rootid l)) (= (select %s l) (select %s l))) :pattern ((select %s l))))", nw, old, nw))
+		vc.assumes["calls outside the package do not modify its unexported package-level variables"] = true
+	}
+	st.heap[c] = nw
 }
 
 // reachComps collects the names of heap components whose cells are reachable from a value of type t.
